@@ -45,6 +45,42 @@ def include_source_rule(rep):
                         f'influence the module', 'sourcer/grammar.py:Grammar'))
 
 
+def description_verbatim(rep):
+    """The named and the unnamed variant of a grammar differ by the header line only, so what reaches the
+    metagrammar parser must be the caller's text itself: any normalisation between `Grammar(description)` and
+    `parser.parse(...)` (dedent, strip, expandtabs, re-encoding ...) acts on the whole text - header included -
+    and can treat the two variants differently (textwrap.dedent removes the common margin: none when a header
+    stands in column 0).  Def-use: the argument of parser.parse / _parse_grammar is a parameter of the enclosing
+    function that is never rebound, or a module's __doc__."""
+    tree = load.parse('sourcer/grammar.py')
+    fns = load.functions_of(tree)
+    n_sites = 0
+    for fname, fn in fns.items():
+        params = {a.arg for a in fn.args.args + fn.args.kwonlyargs}
+        rebound = {t.id for n in ast.walk(fn) for t in ast.walk(n) if isinstance(n, (ast.Assign, ast.AugAssign, ast.AnnAssign,
+                                                                                      ast.For, ast.With, ast.NamedExpr))
+                   and isinstance(t, ast.Name) and isinstance(t.ctx, ast.Store)}
+        for n in ast.walk(fn):
+            if not isinstance(n, ast.Call):
+                continue
+            callee = ast.unparse(n.func)
+            if callee not in ('parser.parse', '_parse_grammar') or not n.args:
+                continue
+            n_sites += 1
+            a = n.args[0]
+            ok = (isinstance(a, ast.Name) and a.id in params and a.id not in rebound) or \
+                (isinstance(a, ast.Attribute) and a.attr == '__doc__')
+            rep.oblige(ok)
+            if not ok:
+                rep.add(Finding('DESC-verbatim', f'sourcer/grammar.py:{fname}', callee,
+                                f'{fname} hands `{ast.unparse(a)[:80]}` to {callee}: the grammar text must reach the '
+                                f'metagrammar parser as the caller wrote it; a normalisation of the whole text acts '
+                                f'differently on the same grammar with and without a `grammar <name>` header',
+                                f'sourcer/grammar.py:{fname}'))
+    rep.count('description hand-over sites examined', n_sites)
+    rep.floor('description hand-over sites examined', n_sites, 3)
+
+
 def anonymous_name_only(fn, idcall):
     """the id() value flows only into the f-string that names an anonymous rule"""
     from .. import paths as P
@@ -154,6 +190,7 @@ def run(rep, tier):
         ('WIRE-plain', 'plain-convention modules never mention a context'),
         ('WIRE-ctx', 'context attributes read are assigned'), ('FREE-name', 'free-name closure'),
         ('LATE-bound', 'non-local references go through _ctx'), ('SRC-flag', 'include_source only sets source_var'),
+        ('DESC-verbatim', 'the grammar text reaches the metagrammar parser as the caller wrote it (no normalisation)'),
         ('DETERMINISM', 'no run-dependent value / unordered iteration reaches emitted text'),
         ('OPTIMIZE-safe', 'no assert / __debug__ / __doc__ in emitted modules'),
         ('ROUTE-raises', 'every route compiles in both conventions'),
@@ -165,6 +202,7 @@ def run(rep, tier):
     rep.floor('call sites examined', stats['callsites'], 250)
     C13.late_binding(rep)
     include_source_rule(rep)
+    description_verbatim(rep)
     determinism_rule(rep)
     optimize_safe(rep)
     from .. import controls
